@@ -479,6 +479,28 @@ def run(ctx):
         if len(samples) < 24 and sh["cases"] % 9 == 1:
             samples.append(dict(notation=name, native=native, vers=str(rng), rule=kind))
     per["shorthands"] = sh
+    # ---- npm hyphen ranges whose second version is partial (node-semver: "1.2.3 - 2.3" is >=1.2.3 <2.4.0, "1.2.3 - 2" is
+    #      >=1.2.3 <3.0.0: any version that starts with the supplied parts is accepted); evaluated against that rule
+    hy = dict(cases=0, probes=0, disagreements=0)
+    for (a, b, c), (x, y) in [((1, 2, 3), (2, 3)), ((1, 2, 3), (2, None)), ((0, 1, 0), (0, 4)), ((2, 0, 0), (3, None)), ((1, 0, 0), (1, 4))]:
+        native = f"{a}.{b}.{c} - {x}" + ("" if y is None else f".{y}")
+        hy["cases"] += 1
+        try:
+            rng = vr.NpmVersionRange.from_native(native)
+        except Exception as ex:  # noqa
+            viol(f"npm: from_native({native!r}) raised {type(ex).__name__}: {str(ex)[:100]}", inputs=dict(notation="npm", native=native))
+            continue
+        for t in sorted(set(probes_around((a, b, c)) + probes_around((x, 0 if y is None else y, 0)) + [(x, (y or 0) + 1, 0), (x + 1, 0, 0), (x, (y or 0), 5)])):
+            want = t >= (a, b, c) and (t[0] <= x if y is None else (t[0], t[1]) <= (x, y))
+            evals += 1
+            hy["probes"] += 1
+            got = vr.NpmVersionRange.version_class(vtext(t)) in rng
+            if got != want:
+                hy["disagreements"] += 1
+                viol(f"npm: {native!r} converts to {str(rng)!r}; version {vtext(t)}: vers says {got}, node-semver's partial-upper rule says {want}",
+                     inputs=dict(notation="npm", native=native, probe=vtext(t)), observed=got, expected=want)
+                break
+    per["npm_hyphen_partial_upper"] = hy
 
     if not violations and (diffs or not proofs["ok"]):
         what = ("theorems of Props/C06.v no longer check: " + str(proofs.get("error"))[-400:]) if not proofs["ok"] else \
